@@ -357,7 +357,7 @@ def main(argv):
     # ---- correspondence with the models
     res_idx = [i for i, c in enumerate(cases) if c['mode'] == 'res']
     cp_all = [i for i, c in enumerate(cases) if c['mode'] == 'cp']
-    cp_idx = [i for i in cp_all if cases[i].get('coq')]          # partition has no model: monitor only
+    cp_idx = [i for i in cp_all if cases[i].get('coq')]
     emu_idx = [i for i, c in enumerate(cases) if c['mode'] == 'emu']
     emu_terms = [(i, t) for i in emu_idx for t in cases[i].get('coqcu', [])]
     mism, okc, clog = [], True, ''
@@ -386,7 +386,6 @@ def main(argv):
         'cp_small_port_cases': sum(1 for c in cp_cases if c.get('cap')),
         'cp_deliveries_refused': sum(1 for c in cp_cases for e in c['events'] if e.get('acc') is False),
         'cp_algorithms': dict(collections.Counter(c.get('alg') or 'round-robin' for c in cp_cases)),
-        'cp_monitor_only_cases(partition)': len(cp_all) - len(cp_idx),
         'emu_cases': len(emu_cases),
         'emu_mapwg': sum(1 for c in emu_cases for e in c['trace'] if e['e'] == 'map'),
         'emu_completion_msgs': sum(1 for c in emu_cases for e in c['trace'] if e['e'] == 'comp'),
